@@ -42,7 +42,7 @@ Print Assumptions C16_add_rule_errors.
 
 Theorem C16_add_rules_succeed : forall cf rs,
   (exists t, add_rules cf rs empty_table = Some t) <-> forallb rule_valid rs = true.
-Proof. intros. apply add_rules_some. Qed.
+Proof. exact add_rules_succeed. Qed.
 Print Assumptions C16_add_rules_succeed.
 
 (* Drop, no connection-tracking state for the tuple, addresses accepted (C17): allowed iff a rule of the packet's
@@ -59,7 +59,7 @@ Print Assumptions C16_drop.
 Theorem C16_drop_untracked : forall fw cs incoming pkt h pr pl,
   aget pkt_eqb pkt cs = None ->
   fst (drop_ct fw cs incoming pkt h pr pl) = drop fw incoming pkt h pr pl false.
-Proof. intros. rewrite drop_ct_drop. now rewrite in_conns_untracked. Qed.
+Proof. exact drop_ct_untracked. Qed.
 Print Assumptions C16_drop_untracked.
 
 (* Allowed packets are tracked afterwards. *)
